@@ -211,6 +211,13 @@ def StageReference(dataReference,  # type: experiment.model.graph.DataReference
                 dest = os.path.join(dest, destName)
                 shutil.copytree(reference, dest, symlinks=True)
             else:
+                # VV: shutil.copy() writes THROUGH an existing symbolic link. If another reference has already been
+                # linked under the same name the copy would overwrite the file that the link points to (i.e. the
+                # output of a different producer, outside this working directory)
+                destFile = os.path.join(dest, os.path.split(reference)[1])
+                if os.path.islink(destFile) and os.path.realpath(destFile) != os.path.realpath(reference):
+                    raise OSError(errno.EEXIST, 'Cannot copy over a link to a different file '
+                                                '(2 references stage the same name)', destFile)
                 shutil.copy(reference, dest)
         elif dataReference.method == experiment.model.graph.DataReference.Link:
             name = os.path.split(reference)[1]
